@@ -106,7 +106,7 @@ INV = {
 PROPS = {
     # sample: behaviours replayed per engine (0 = all enumerated behaviours); a RocksDB open costs ~100 ms here
     "C22": dict(cfgs={"quick": ["cas-3", "keys-3"], "thorough": ["cas-3", "cas-4", "cas2k-3", "keys-3", "keys-4"]},
-                sample={"quick": {"file": 1000, "rocks": 600}, "thorough": {"file": 40000, "rocks": 8000}}),
+                sample={"quick": {"file": 4000, "rocks": 800}, "thorough": {"file": 40000, "rocks": 8000}}),
     "C15": dict(cfgs={"quick": ["crash-2"], "thorough": ["crash-2", "crash-3", "crash2-3"]},
                 sample={"quick": {"file": 900, "rocks": 110}, "thorough": {"file": 20000, "rocks": 2000}}),
     "C16": dict(cfgs={"quick": ["snap-2"], "thorough": ["snap-2", "snap-3", "snap-4"]},
@@ -206,9 +206,21 @@ def generate(wd, name, consts, T):
     return hdr, behs, st
 
 
+def _chunk_sig(cmds):
+    """operations of a chunk and which of them touch a key an earlier command of the same chunk touched
+    (intra-chunk dependencies are where a chunking bug lives)"""
+    seen, out = [], []
+    for c in cmds:
+        k = json.dumps(c.get("k"))
+        out.append(c.get("op", "?")[:3] + ("*%d" % seen.index(k) if k in seen else ""))
+        if k not in seen:
+            seen.append(k)
+    return ",".join(out)
+
+
 def shape(steps):
     return " ".join(s["t"] + ("!" + s["crashat"] if s.get("crashat") else "") + (":" + s["w"] if s.get("w") else "")
-                    + ("/%d" % len(s["cmds"]) if "cmds" in s else "") for s in steps)
+                    + ("/%d[%s]" % (len(s["cmds"]), _chunk_sig(s["cmds"])) if "cmds" in s else "") for s in steps)
 
 
 def stratified(items, n, rnd):
